@@ -710,3 +710,63 @@ Lemma two_file_ids_disagree :
 Proof.
   eexists. eexists. split; [vm_compute; reflexivity|]. split; [vm_compute; reflexivity|]. discriminate.
 Qed.
+
+(* ================================================================ DecodeChained: the complete Files and the partial one *)
+Lemma decode_a_partial_file :
+  forall o g t h l be fds (devflag : bool) (devs : list (N * N * N)) pay dev rest r cut rem ss1 ss2 f2 g1,
+  let rs := RDef l be c_MesgNumFileId fds devflag devs :: RData l pay dev :: rest in
+  header_wf h ->
+  (List.length (ser_records rs ++ cut) < N.to_nat (h_dsize h))%nat ->
+  stream_wf rs = true -> denote rs = Some ss1 ->
+  start_file h g (hd dummy_msg (ss_msgs ss1)) = Some (f2, g1) ->
+  rec_wf r = true -> denote_record ss1 r = Some ss2 ->
+  ser_record r = cut ++ rem -> rem <> [] ->
+  exists e sf u f g',
+    decode_a o MFull g (hdr_bytes h ++ ser_records rs ++ cut) t =
+      TDone (mk_ares (Some (EIO e)) h (Some (finalize_unknown o sf)) u (ds_g sf) (ds_quirks sf) true) /\
+    route_msgs h g (ss_msgs ss1) = Some (f, g') /\ ds_file sf = f /\ ds_g sf = g'.
+Proof.
+  intros o g t h l be fds devflag devs pay dev rest r cut rem ss1 ss2 f2 g1 rs Hwfh Hlim Hwf Hden Hstart Hwfr Hdr Hser Hrem.
+  destruct (data_prog_partial_file o h g l be fds devflag devs pay dev rest r cut rem ss1 ss2 f2 g1 t
+              (N.to_nat (h_dsize h)) Hwf Hden Hstart Hwfr Hdr Hser Hrem Hlim) as (e & x & sf & f & g' & Hrun & Hroute & Hfile & Hg).
+  fold rs in Hrun. exists e, sf. eexists. exists f, g'. split; [|split; [exact Hroute|split; assumption]].
+  unfold decode_a. rewrite (hdr_a_wf h _ _ Hwfh), (skipn_hdr h _ Hwfh). cbv beta iota zeta. rewrite Hrun. reflexivity.
+Qed.
+
+Theorem DecodeChained_partial_files :
+  forall o g pre fs1 g1 q1 rd fuel h l be fds (devflag : bool) (devs : list (N * N * N)) pay dev rest r cut rem ss1 ss2 f2 g2,
+  let rs := RDef l be c_MesgNumFileId fds devflag devs :: RData l pay dev :: rest in
+  chain_ok o g pre fs1 g1 q1 ->
+  header_wf h ->
+  rd_data rd = concat pre ++ hdr_bytes h ++ ser_records rs ++ cut ->
+  (List.length (ser_records rs ++ cut) < N.to_nat (h_dsize h))%nat ->
+  stream_wf rs = true -> denote rs = Some ss1 ->
+  start_file h g1 (hd dummy_msg (ss_msgs ss1)) = Some (f2, g2) ->
+  rec_wf r = true -> denote_record ss1 r = Some ss2 ->
+  ser_record r = cut ++ rem -> rem <> [] ->
+  wf rd fuel ->
+  exists cr e file' f g',
+    entry_DecodeChained o g rd fuel = TDone cr /\ cr_err cr = Some (EIO e) /\ cr_files cr = fs1 ++ [file'] /\
+    route_msgs h g1 (ss_msgs ss1) = Some (f, g') /\
+    f_slots file' = f_slots f /\ f_inited file' = f_inited f /\ f_header file' = h.
+Proof.
+  intros o g pre fs1 g1 q1 rd fuel h l be fds devflag devs pay dev rest r cut rem ss1 ss2 f2 g2 rs
+         Hc Hwfh Hd Hlim Hwf Hden Hstart Hwfr Hdr Hser Hrem Hf.
+  destruct (decode_a_partial_file o g1 (rd_term rd) h l be fds devflag devs pay dev rest r cut rem ss1 ss2 f2 g2
+              Hwfh Hlim Hwf Hden Hstart Hwfr Hdr Hser Hrem) as (e & sf & u & f & g' & Ha & Hroute & Hfile & Hg).
+  fold rs in Ha.
+  unfold entry_DecodeChained.
+  pose proof (decode_chained_abs o fuel (S (List.length (rd_data rd))) g rd 0 [] [] 0 Hf) as HA.
+  destruct (chain_ok_lengths _ _ _ _ _ _ Hc) as [HL HF].
+  rewrite Hd in HA at 2.
+  rewrite (chain_then o g pre fs1 g1 q1 Hc) in HA by (rewrite Hd, app_length; lia).
+  replace (S (List.length (rd_data rd)) - List.length pre)%nat with (S (List.length (rd_data rd) - List.length pre))
+    in HA by (rewrite Hd, app_length; lia).
+  cbn [chained_a app] in HA. rewrite Ha in HA. cbv beta iota zeta in HA. fields. cbn [ar_err ar_file ar_used ar_g ar_quirks ar_exact] in HA.
+  destruct (decode_chained o g rd fuel 0 (S (List.length (rd_data rd))) [] []) as [cr|w|]; try contradiction.
+  destruct HA as (C1 & C2 & _). cbn [ca_err ca_files] in C1, C2.
+  destruct (finalize_slots o sf) as (S1 & S2 & S3 & _).
+  exists cr, e, (finalize_unknown o sf), f, g'.
+  split; [reflexivity|]. split; [exact C1|]. split; [exact C2|]. split; [exact Hroute|].
+  split; [congruence|]. split; [congruence|]. rewrite S3, Hfile. exact (route_msgs_header _ _ _ _ _ Hroute).
+Qed.
